@@ -16,7 +16,7 @@ PROFILE = {'n_rps': 2, 'setup_ops': 18, 'existing_consumer_bias': 0.7, 'empty_bi
            'setup_weights': {'rp_delete': 0, 'alloc_put': 30, 'alloc_delete': 1, 'rc_rename': 0, 'rc_delete': 0, 'trait_delete': 0,
                              'rp_traits_set': 0, 'aggs_set': 0, 'rp_update': 0},
            'race_kinds': {'alloc_put': 8, 'alloc_post': 4, 'reshape': 1},
-           'p_three': 0.05, 'p_move': 0.6}
+           'p_three': 0.05, 'p_move': 0.6, 'p_two_consumers': 0.3}
 
 
 def run(chk):
